@@ -2658,6 +2658,9 @@ func (c *codegen) convertByteSliceOrArray(elems map[int64]ast.Expr, size int64) 
 	}
 	emit.Bytes(c.prog.BinWriter, buf)
 	c.emitConvert(stackitem.BufferT)
+	// elems is a map: the elements that are not constant have to be evaluated
+	// in the order of the source, not in the order of the map iteration.
+	slices.Sort(varIndices)
 	for _, i := range varIndices {
 		emit.Opcodes(c.prog.BinWriter, opcode.DUP)
 		emit.Int(c.prog.BinWriter, i)
